@@ -207,6 +207,11 @@ void Exec::op_census(const Op& op) {
   for (int h = 1; h < NHEAPS; h++) { if (!m.heaps[h].alive) continue; Hp& H = m.heaps[h]; if (H.pending_remote) { mi_heap_collect(H.h, false); H.pending_remote = false; }
     VisitCtx c; c.heap = H.h; mi_heap_visit_blocks(H.h, true, &visit_cb, &c); for (auto& v : c.blocks) { all.push_back(v); from.push_back(h); } }
   bool with_abandoned = visit_abandoned_on;
+  if (with_abandoned && op.has("astop")) {   // an abandoned walk that the visitor stops early: it stops there, reports false, and takes nothing away from the walk that follows
+    VisitCtx cs; cs.stop = (long)op.snum("astop", 1); bool ret = mi_abandoned_visit_blocks(mi_subproc_main(), -1, true, &visit_cb, &cs); bool stopped = (cs.stop > 0 && cs.calls >= cs.stop);
+    if (cs.stop > 0 && cs.calls > cs.stop) fail_now("avisit-stop", "op#%ld visitor returned false at block call %ld of the abandoned walk but %ld calls were made", opi, cs.stop, cs.calls);
+    if (stopped && ret) fail_now("avisit-stop-ret", "op#%ld mi_abandoned_visit_blocks returned true although the visitor returned false", opi);
+    if (stopped) flag(F_VISIT_STOP); }
   if (with_abandoned) { VisitCtx c; bool ok = mi_abandoned_visit_blocks(mi_subproc_main(), (int)op.snum("tag", -1), true, &visit_cb, &c); if (!ok) fail_now("avisit-ret", "op#%ld mi_abandoned_visit_blocks returned false although the visitor never did", opi);
     for (auto& v : c.blocks) { all.push_back(v); from.push_back(0); } if (!c.blocks.empty()) flag(F_ABANDONED_VISIT);
     for (int sp = 0; sp < 2; sp++) if (m.subprocs[sp]) { VisitCtx c2; mi_abandoned_visit_blocks(m.subprocs[sp], -1, true, &visit_cb, &c2); for (auto& v : c2.blocks) { all.push_back(v); from.push_back(100 + sp); } } }
